@@ -123,6 +123,13 @@ def main():
     print("%d mutation sites in %s" % (len(ss), rel))
     killed = survived = crashed = same = 0
     tag = rel.replace("/", "_").replace(".py", "")
+    if "--apply" in sys.argv:
+        # leave mutant K in /repo for a closer look (restore with `git -C /repo checkout -- .`)
+        k = int(sys.argv[sys.argv.index("--apply") + 1])
+        kind, p = ss[k]
+        open(path, "w").write(ast.unparse(mutate(tree, kind, p)))
+        print("applied mutant %d (%s)" % (k, kind))
+        return
     try:
         for k, (kind, p) in enumerate(ss[:maxn]):
             try:
